@@ -240,6 +240,14 @@ def check_heap(rep, repo: Repo, pre: str = "") -> None:
             SP[(name, pol)] = Walker(repo, repo.need_method("Heap", name), self_class="Heap", inline=helper,
                                      subst={POLICY: ("const", pol), **nil_subst(repo)})
 
+    # the sift rules read comparisons of costs written as comparisons; an element picked by `min(..., key=f)` /
+    # `max(..., key=f)` / `sorted(...)` hides them in a key function: outside the analysable fragment
+    for (name, pol), wsp in SP.items():
+        for e in wsp.events:
+            if e.kind == "call" and e.name in ("builtin.min", "builtin.max", "builtin.sorted") and "key" in dict(e.kwargs or ()):
+                raise AnalysisError(f"Heap.{name}: the element to move is selected with {e.name[8:]}(..., key=...); the sift "
+                                    "rules cover explicit cost comparisons only")
+
     # ---- H1 mirror -----------------------------------------------------------
     def mirror_sig(w: Walker, pol: str):
         from .schema import rewrite
